@@ -219,8 +219,9 @@ static inline int readline_putchar(struct readline *rl, char c)
             break;
 
         default:
-            sline_putchar(&rl->line, c);
-            retcode = READLINE_ECHOCHAR;
+            // a character that does not fit is dropped and must not be echoed
+            ret = sline_putchar(&rl->line, c);
+            retcode = ret ? READLINE_ECHOCHAR : READLINE_OVERFLOW;
             break;
         }
         break;
